@@ -134,7 +134,7 @@ static inline void mk_cells(CellGroup *g, long n)
   g->objectMultipole.blockRawPtrs[0] = (unsigned char *)m;
   g->objectLocal.nbItemsInBlocks = nbl;
   g->objectLocal.blockRawPtrs[0] = (unsigned char *)l;
-  for(int r = 0; r < 6; ++r) if(greg[r] == 0) { greg[r] = g; break; }
+  if(greg[0] == 0) greg[0] = g; else if(greg[1] == 0) greg[1] = g; else if(greg[2] == 0) greg[2] = g; else if(greg[3] == 0) greg[3] = g; else if(greg[4] == 0) greg[4] = g; else greg[5] = g;
 }
 static inline void mk_parts_symb(PartGroup *g, long n)
 {
@@ -276,7 +276,7 @@ static inline void mk_parts(PartGroup *g, long n, long np)
   g->objectData.blockRawPtrs[2] = (unsigned char *)pi;
   g->objectData.blockRawPtrs[3] = (unsigned char *)pd;
   g->objectRhs.blockRawPtrs[0] = (unsigned char *)pr;
-  for(int r = 0; r < 6; ++r) if(greg[r] == 0) { greg[r] = g; break; }
+  if(greg[0] == 0) greg[0] = g; else if(greg[1] == 0) greg[1] = g; else if(greg[2] == 0) greg[2] = g; else if(greg[3] == 0) greg[3] = g; else if(greg[4] == 0) greg[4] = g; else greg[5] = g;
 }
 
 long TbfParticlesContainer__getNbLeaves(const PartGroup *self)
